@@ -1380,7 +1380,7 @@ def stream_samples(c, N):
             name = type(raised).__name__
             if isinstance(raised, NotImplementedError) and mcan == '0':
                 c.failing_input(KNOWN_SIG, 'integrate/eval of take_elements or zip over a sample containing a sum raises NotImplementedError', dict(replay, error=repr(raised)))
-            elif isinstance(raised, AssertionError) and has_empty_product(node, spec):
+            elif isinstance(raised, (AssertionError, ZeroDivisionError)) and has_empty_product(node, spec):     # same root cause, the exception depends on the shape
                 c.failing_input(EMPTY_MUL_SIG, 'eval of a product sample with a factor without points raises AssertionError (function.reshape of a zero-size array in _Mul._bind)', dict(replay, error=repr(raised)))
             else:
                 bad['evaluable'] += 1
